@@ -356,6 +356,77 @@ def ephem_case(change):
                      "interpolation" if change else ""))
 
 
+def ephem_setting_case(kind):
+    """`ephem.order = k` / `ephem.method = m` take effect whether or not the ephemeris has been interpolated before: four symbolic
+    points of a quadratic trajectory, the setting changed to Lagrange order 3 (which reproduces it exactly), query anywhere in
+    the table.  kind: 'order_after' (built with order 2, interpolated once, then order = 3), 'method_after' (built linear,
+    interpolated once, then method = lagrange and order = 3), 'order_before' (order set before the first use)"""
+    ins = [(f"t{i}", "real") for i in range(4)] + [("a", "real"), ("b", "real"), ("c", "real"), ("x", "real")]
+
+    def pre(v):
+        return [v[f"t{i}"] < v[f"t{i + 1}"] for i in range(3)] + [v["t0"] <= v["x"], v["x"] <= v["t3"]]
+
+    def settings(e, interpolate):
+        if kind == "order_after":
+            interpolate()
+            e.order = 3
+        elif kind == "method_after":
+            interpolate()
+            e.method = "lagrange"
+            e.order = 3
+        else:
+            e.order = 3
+        return e.order == 3 and e.method == "lagrange"
+
+    def run(env, v):
+        import importlib
+        first = dict(method="linear", order=3) if kind == "method_after" else dict(method="lagrange", order=2)
+        if env.symbolic:
+            from symx.stubs import SymDate, carrier
+            eph = env.mod("beyond.orbits.ephem")
+            fr = env.mod("beyond.frames.frames")
+            env.mod("beyond.utils.interp")
+            forms = importlib.import_module("beyond.orbits.forms")
+
+            class D(SymDate):
+                _mjd = property(lambda self: self.t)
+            saved = eph.StateVector
+            eph.StateVector = lambda arr, date, form, frame: carrier(list(arr), date=date, frame=frame, form=form)
+            try:
+                q = lambda t, k: (k + 1) * (v["a"] + v["b"] * t + v["c"] * t * t)
+                dates = [D(v[f"t{i}"]) for i in range(4)]
+                orbs = [carrier([q(v[f"t{i}"], k) for k in range(6)], date=dates[i], frame=fr.EME2000, form=forms.CART) for i in range(4)]
+                e = eph.Ephem(orbs, **first)
+                seen = settings(e, lambda: e.interpolate(D(v["x"])))
+                mid = e.interpolate(D(v["x"]))
+                return {"setting_read_back": Holds(SB(z3.BoolVal(bool(seen)))), "value": [mid[k] - q(v["x"], k) for k in range(6)]}
+            finally:
+                eph.StateVector = saved
+        from beyond.orbits import StateVector, Ephem
+        from beyond.dates import Date
+        from datetime import timedelta
+        d0 = Date(2020, 1, 1)
+        ts = sorted(float(v[f"t{i}"]) for i in range(4))
+        span = max(ts[3] - ts[0], 1e-9)
+        sec = lambda t: 600 * (t - ts[0]) / span
+        a, b, c = float(v["a"]), float(v["b"]), float(v["c"])
+        q = lambda s, k: (k + 1) * (a + b * s / 600 + c * (s / 600) ** 2)
+        dates = [d0 + timedelta(seconds=sec(t)) for t in ts]
+        orbs = [StateVector([q((d - d0).total_seconds(), k) for k in range(6)], d, "cartesian", "EME2000") for d in dates]
+        e = Ephem(orbs, **first)
+        xq = d0 + timedelta(seconds=sec(min(max(float(v["x"]), ts[0]), ts[3])))
+        seen = settings(e, lambda: e.interpolate(xq))
+        mid = e.interpolate(xq)
+        sc = max(1.0, abs(a), abs(b), abs(c))
+        return {"setting_read_back": Holds(bool(seen)), "value": [(float(mid[k]) - q((xq - d0).total_seconds(), k)) / sc for k in range(6)]}
+
+    def ref(env, v, out):
+        return {"setting_read_back": None, "value": [0] * 6}
+    return Case(f"ephem/setting/{kind}", ins, run, ref, pre=pre, timeout=90, maxpaths=200, tol=0, abs_tol=1e-7,
+                desc=f"Ephem on four points of a quadratic trajectory, {kind.replace('_', ' ')} the first interpolation: the new "
+                     "order/method reads back and Lagrange order 3 reproduces the trajectory at any date of the table")
+
+
 def all_cases(tier):
     b = bounds(tier)
     cs = [previdx_case(n) for n in range(2, b["prev_idx_table_len"] + 1)]
@@ -367,6 +438,7 @@ def all_cases(tier):
             cs.append(basis_case(o, w))
     cs += [node_case(2), node_case(3), node_case(4), linear_case(), outside_case("lagrange"), outside_case("linear")]
     cs += [ephem_case(False), ephem_case(True)]
+    cs += [ephem_setting_case(k) for k in ("order_after", "method_after", "order_before")]
     if tier != "quick":
         cs.append(node_case(8))
     return cs
